@@ -383,3 +383,137 @@ def _(p):
             if abs(cells[r, j] - w) > 1e-7 * (1 + abs(w)):
                 return f"encoding-mismatch: {formula!r} row {i} (level {rows[i]!r}) column {labels[j]!r} = {cells[r, j]}, indicator x coding gives {w}"
     return None
+
+
+# ------------------------------------------------------------------------------------------------ C09
+
+
+@replay("c09_kind")
+def _(p):
+    import pandas
+    from formulaic import model_matrix
+    from formulaic.errors import FactorEncodingError
+
+    dtrain = mc.full_frame(_A_TRAIN, _B_TRAIN)
+    spec = model_matrix(p["formula"], dtrain, output=p["output"]).model_spec
+    d2 = dtrain.copy()
+    if p["to"] == "numeric":
+        d2[p["var"]] = numpy.array(p.get("x") or [float(i) for i in range(len(d2))], dtype=float)
+    else:
+        d2[p["var"]] = pandas.Categorical(["k", "l", "k", "m", "l", "k", "m"])
+    try:
+        mm = spec.get_model_matrix(d2)
+    except FactorEncodingError:
+        return None
+    except Exception as e:
+        return f"wrong-error-type: {p['formula']!r}: {p['var']} arriving as {p['to']} raised {type(e).__name__}: {str(e)[:100]} instead of FactorEncodingError"
+    return f"matrix-returned: {p['formula']!r}: {p['var']} recorded as {'categorical' if p['to'] == 'numeric' else 'numerical'} arrived as {p['to']} and a matrix with columns {list(mm.model_spec.column_names)} was returned"
+
+
+@replay("c09_unseen")
+def _(p):
+    import warnings
+
+    import pandas
+    from formulaic import model_matrix
+    from formulaic.errors import DataMismatchWarning
+
+    dtrain = mc.full_frame(_A_TRAIN, _B_TRAIN)
+    out = p["output"]
+    spec = model_matrix(p["formula"], dtrain, output=out).model_spec
+    labels0 = list(spec.column_names)
+    d2 = dtrain.copy()
+    rows2 = list({"A": mc.A_ROWS, "B": mc.B_ROWS}[p["var"]])
+    rows2[1] = rows2[4] = "NEW"
+    d2[p["var"]] = pandas.Categorical(rows2)
+    with warnings.catch_warnings(record=True) as w:
+        warnings.simplefilter("always")
+        ref = spec.get_model_matrix(dtrain)
+        n0 = len([x for x in w if issubclass(x.category, DataMismatchWarning)])
+        got = spec.get_model_matrix(d2)
+        n1 = len([x for x in w if issubclass(x.category, DataMismatchWarning)])
+    if list(got.model_spec.column_names) != labels0:
+        return f"columns-changed: {p['formula']!r}: an unseen level of {p['var']} changed the columns to {list(got.model_spec.column_names)}"
+    r, g = _arr(ref), _arr(got)
+    if r.shape != g.shape:
+        return f"shape-changed: {g.shape} vs {r.shape}"
+    if not (n0 == 0 and n1 > 0):
+        return f"no-warning: DataMismatchWarning count clean={n0} unseen={n1}"
+    keep = [i for i in range(len(dtrain)) if i not in (1, 4)]
+    if not numpy.allclose(r[keep], g[keep], equal_nan=True):
+        return "other-rows-changed: rows without the unseen level changed"
+    touched = [j for j, l in enumerate(labels0) if f"{p['var']}[" in l]
+    if touched and not numpy.allclose(g[[1, 4]][:, touched], 0):
+        return f"unseen-rows-not-zero: {g[[1, 4]][:, touched].tolist()}"
+    return None
+
+
+# ------------------------------------------------------------------------------------------------ C18
+
+
+@replay("c18_history")
+def _(p):
+    from . import c18_common as cc
+
+    n = mc.NROWS
+    d1 = mc.full_frame(_A_TRAIN, _B_TRAIN)
+    d2 = mc.full_frame([v * 1.5 + 2 for v in _B_TRAIN], [v - 3 for v in _A_TRAIN], a_rows=list(reversed(mc.A_ROWS)))
+
+    def same(u, v):
+        u, v = float(u), float(v)
+        return (numpy.isnan(u) and numpy.isnan(v)) or u == v  # bit-identical
+
+    problems, claims = cc.run_history(p["formula"], tuple(p["history"]), {1: (d1, {}), 2: (d2, {})}, same, lambda num: None)
+    for label, cs, tag in claims:
+        if not all(cs):
+            problems.append((tag, f"{label}: values differ"))
+    for tg, msg in problems:
+        if p.get("tag") in (None, tg):
+            return f"{tg}: formula {p['formula']!r}: {msg}"
+    return None
+
+
+# ------------------------------------------------------------------------------------------------ C20
+
+
+@replay("c20_values")
+def _(p):
+    import itertools
+
+    from formulaic import Formula, model_matrix
+
+    fam, wrt, h = p["terms"], p["wrt"], p["h"]
+    if any(abs(x) < 1e-6 for x in h):
+        return None
+    F = Formula(fam, _ordering="none")
+    D = F.differentiate(*wrt)
+    terms, dterms = list(F), list(D)
+    if len(terms) != len(dterms):
+        return f"term-count-differs: {len(terms)} terms differentiate to {len(dterms)}"
+
+    def cols(term, a, b):
+        df = mc.full_frame(a, b)
+        mm = model_matrix(Formula([term], _ordering="none"), df, ensure_full_rank=False, output="numpy")
+        return numpy.asarray(mm, dtype=float).reshape((len(df), -1))
+
+    for t, d in zip(terms, dterms):
+        acc = None
+        for signs in itertools.product((0, 1), repeat=len(wrt)):
+            a, b = list(p["a"]), list(p["b"])
+            for use, var, hh in zip(signs, wrt, h):
+                if use:
+                    if var == "a":
+                        a = [x + hh for x in a]
+                    else:
+                        b = [x + hh for x in b]
+            c = ((-1) ** (len(wrt) - sum(signs))) * cols(t, a, b)
+            acc = c if acc is None else acc + c
+        fd = acc / numpy.prod(h)
+        if repr(d) == "0":
+            if not numpy.allclose(fd, 0, atol=1e-7):
+                return f"nonzero-derivative-reported-zero: d/d{wrt} of {t!r} is reported as 0 but the finite difference is {fd[0].tolist()}"
+            continue
+        dc = cols(d, p["a"], p["b"])
+        if dc.shape != fd.shape or not numpy.allclose(dc, fd, rtol=1e-6, atol=1e-6):
+            return f"derivative-mismatch: d/d{wrt} of {t!r} is reported as {d!r} whose columns are {dc[0].tolist()} (row 0), finite difference gives {fd[0].tolist()}"
+    return None
